@@ -1,0 +1,82 @@
+//go:build verif
+
+// Contracts for response-compression negotiation (property C17, reduced core). Comment-only.
+
+package vgirpc
+
+//@ pure func inSlice(xs []string, x string) bool = exists i int :: 0 <= i && i < len(xs) && xs[i] == x
+
+// containsEncoding: exact membership.
+//
+//@ func containsEncoding
+//@   property C17
+//@   modifies nothing
+//@   ensures result <==> inSlice(list, enc)
+//@   loop 0 invariant rangeindex < len(list)
+//@   loop 0 invariant forall k int :: 0 <= k && k <= rangeindex ==> list[k] != enc
+
+// chooseResponseEncoding: the client's order decides. With C = tokens of the custom header and
+// S = tokens of the standard header, the candidates are walked as C followed by the tokens of S
+// not in C; the first one that is "identity" ends the walk with "" and the first one the server
+// can produce wins; used_custom iff the winner was offered on the custom header only.
+//
+//@ func chooseResponseEncoding
+//@   property C17
+//@   loop 0 invariant rangeindex < len(customTokens)
+//@   loop 0 invariant forall x string :: has(inCustom, x) <==> (exists k int :: 0 <= k && k <= rangeindex && customTokens[k] == x)
+//@   loop 1 invariant rangeindex < len(standardTokens)
+//@   loop 1 invariant forall x string :: has(inStandard, x) <==> (exists k int :: 0 <= k && k <= rangeindex && standardTokens[k] == x)
+//@   loop 2 invariant rangeindex < len(standardTokens) && len(merged) >= len(customTokens)
+//@   loop 2 invariant arr(merged) != arr(customTokens) && arr(merged) != arr(standardTokens)
+//@   loop 2 invariant forall x string :: has(inCustom, x) <==> inSlice(customTokens, x)
+//@   loop 2 invariant forall x string :: has(inStandard, x) <==> inSlice(standardTokens, x)
+//@   loop 2 invariant forall j int :: 0 <= j && j < len(customTokens) ==> merged[j] == customTokens[j]
+//@   loop 2 invariant forall j int :: len(customTokens) <= j && j < len(merged) ==> inSlice(standardTokens, merged[j]) && !has(inCustom, merged[j])
+//@   loop 3 invariant rangeindex < len(merged)
+//@   loop 3 invariant forall j int :: 0 <= j && j <= rangeindex ==> merged[j] != "identity" && !inSlice(producible, merged[j])
+//@   ensures [local_winner] result0 != "" ==> inSlice(producible, result0) && result0 != "identity" && (inSlice(customTokens, result0) || inSlice(standardTokens, result0))
+//@   ensures [local_usedcustom_ret3] result1 <==> (inSlice(customTokens, result0) && !inSlice(standardTokens, result0))
+//@   ensures [local_firstmatch_ret3] result0 == merged[rangeindex+1] && (forall j int :: 0 <= j && j <= rangeindex ==> merged[j] != "identity" && !inSlice(producible, merged[j]))
+//@   ensures [local_identity_ret2] result0 == "" && !result1 && merged[rangeindex+1] == "identity"
+//@   ensures [local_none_ret4] result0 == "" && !result1 && (forall j int :: 0 <= j && j < len(merged) ==> merged[j] != "identity" && !inSlice(producible, merged[j]))
+
+// gzipLevelFor: the result is gzip's default (-1) or a level in 1..9.
+//
+//@ func gzipLevelFor
+//@   property C17
+//@   modifies nothing
+//@   ensures result == (zstdLevel > 9 ? 9 : (zstdLevel < 1 ? -1 : zstdLevel))
+
+// The advertised codec set is the producible one: both are functions of the one level field,
+// and every write of the level re-renders the advertisement from producibleResponseEncodings.
+//
+//@ func (*HttpServer).producibleResponseEncodings
+//@   property C17
+//@   modifies nothing
+//@   ensures (h.zstdEncoderLevel <= 0) ==> result == nil
+//@   ensures (h.zstdEncoderLevel > 0) ==> result == supportedEncodings
+//@ func (*HttpServer).applyCompressionLevel
+//@   property C17
+//@   at call strings.Join assert [advertised] h.zstdEncoderLevel == (level < 0 ? 0 : level) && arg1 == ", "
+//@   at call (*HttpServer).producibleResponseEncodings assert [levelfirst] h.zstdEncoderLevel == (level < 0 ? 0 : level)
+
+// finish: a body is compressed only when a codec was negotiated, the content type is Arrow and
+// the body is non-empty; then the encoding is stamped on X-VGI-Content-Encoding iff the winner
+// came from the custom header only, else on Content-Encoding; otherwise the buffered bytes go
+// out unchanged and no encoding header is stamped.
+//
+//@ func (*compressResponseWriter).finish
+//@   property C17
+//@   at call newCompressWriter assert [onlywhen] cw.encoding != "" && arg0 == cw.encoding && arg2 == cw.encoderLevel
+//@   at call (http.Header).Set assert [header] arg2 == cw.encoding && arg1 == (cw.useCustomHeader ? "X-VGI-Content-Encoding" : "Content-Encoding")
+
+// parseAcceptEncoding: the token list has no empty token and no duplicate (first occurrence
+// wins), for every header string.
+//
+//@ func parseAcceptEncoding
+//@   property C17
+//@   nopanic(index, slice)
+//@   loop 0 invariant forall k int :: 0 <= k && k < len(out) ==> out[k] != "" && has(seen, out[k])
+//@   loop 0 invariant forall j int, k int :: 0 <= j && j < k && k < len(out) ==> out[j] != out[k]
+//@   ensures [local_nodup_ret2] (forall k int :: 0 <= k && k < len(out) ==> out[k] != "") &&
+//@       (forall j int, k int :: 0 <= j && j < k && k < len(out) ==> out[j] != out[k])
